@@ -1003,7 +1003,11 @@ time_zone::civil_lookup TimeZoneInfo::MakeTime(const civil_second& cs) const {
   }
 
   if (tr == end) {
-    if (cs > (--tr)->prev_civil_sec) {
+    --tr;
+    // A transition that leaves the offset alone cannot end an overlap.
+    const Transition* otr = tr;
+    while (otr != begin && otr->prev_civil_sec + 1 == otr->civil_sec) --otr;
+    if (cs > otr->prev_civil_sec) {
       // After the last transition. If we extended the transitions using
       // future_spec_, shift back to a supported year using the 400-year
       // cycle of calendaric equivalence and then compensate accordingly.
@@ -1015,8 +1019,8 @@ time_zone::civil_lookup TimeZoneInfo::MakeTime(const civil_second& cs) const {
       if (cs > tt.civil_max) return MakeUnique(time_point<seconds>::max());
       return MakeUnique(tr->unix_time + (cs - tr->civil_sec));
     }
-    // tr->civil_sec <= cs <= tr->prev_civil_sec
-    return MakeRepeated(*tr, cs);
+    // otr->civil_sec <= cs <= otr->prev_civil_sec
+    return MakeRepeated(*otr, cs);
   }
 
   if (tr->prev_civil_sec < cs) {
@@ -1024,9 +1028,13 @@ time_zone::civil_lookup TimeZoneInfo::MakeTime(const civil_second& cs) const {
     return MakeSkipped(*tr, cs);
   }
 
-  if (cs <= (--tr)->prev_civil_sec) {
-    // tr->civil_sec <= cs <= tr->prev_civil_sec
-    return MakeRepeated(*tr, cs);
+  --tr;
+  // A transition that leaves the offset alone cannot end an overlap.
+  const Transition* otr = tr;
+  while (otr != begin && otr->prev_civil_sec + 1 == otr->civil_sec) --otr;
+  if (cs <= otr->prev_civil_sec) {
+    // otr->civil_sec <= cs <= otr->prev_civil_sec
+    return MakeRepeated(*otr, cs);
   }
 
   // In between transitions.
